@@ -129,6 +129,117 @@ void un(Rng& rng)
 }
 
 
+#if !defined(VH_CMP_ONLY)
+// elastic_integer combined directly with a built-in integer (either side): the built-in operand becomes
+// elastic_integer<digits<T>, set_width_t<T, width<LN>>> (from_value.h); lines use the same protocol as bin/cmp
+template<int LD, class LN, class T>
+void binm(Rng& rng)
+{
+    using A = elastic_integer<LD, LN>;
+    using AR = _impl::rep_of_t<A>;
+    constexpr int RD = std::numeric_limits<T>::digits;
+    using RN = _impl::set_width_t<T, _impl::width<LN>>;
+    auto lv = evals<LD, LN>(rng);
+    auto rv = vals<T>(rng, 3 * scale_from_env(), sizeof(T) > 4 ? 13 : 7);
+    for (I l : lv)
+        for (T b : rv) {
+            I r = I(b);
+            if (!std::is_signed_v<T> && sizeof(T) == 16) continue;
+            A a = _impl::from_rep<A>(AR(l));
+            { EHEAD("bin", "add") VH_RUN(a + b, print_el) }
+            { EHEAD("bin", "sub") VH_RUN(a - b, print_el) }
+            { EHEAD("bin", "mul") VH_RUN(a * b, print_el) }
+            { EHEAD("bin", "div") VH_RUN(a / b, print_el) }
+            { EHEAD("bin", "mod") VH_RUN(a % b, print_el) }
+            { EHEAD("cmp", "lt") VH_RUN(a < b, print_tv) }
+            { EHEAD("cmp", "ge") VH_RUN(a >= b, print_tv) }
+            { EHEAD("cmp", "eq") VH_RUN(a == b, print_tv) }
+        }
+    // built-in operand on the left
+    for (T b : rv)
+        for (I r : lv) {
+            I l = I(b);
+            A a = _impl::from_rep<A>(AR(r));
+            printf(VH_ETABLE " bin sub %d %s %d %s ", RD, tn<RN>().c_str(), LD, tn<LN>().c_str()); pri(l); putchar(' '); pri(r); fputs(" => ", stdout);
+            VH_RUN(b - a, print_el)
+            printf(VH_ETABLE " bin mul %d %s %d %s ", RD, tn<RN>().c_str(), LD, tn<LN>().c_str()); pri(l); putchar(' '); pri(r); fputs(" => ", stdout);
+            VH_RUN(b * a, print_el)
+            printf(VH_ETABLE " bin div %d %s %d %s ", RD, tn<RN>().c_str(), LD, tn<LN>().c_str()); pri(l); putchar(' '); pri(r); fputs(" => ", stdout);
+            VH_RUN(b / a, print_el)
+            printf(VH_ETABLE " cmp gt %d %s %d %s ", RD, tn<RN>().c_str(), LD, tn<LN>().c_str()); pri(l); putchar(' '); pri(r); fputs(" => ", stdout);
+            VH_RUN(b > a, print_tv)
+        }
+}
+#endif
+
+#if !defined(VH_CMP_ONLY)
+// elastic_scaled_integer = scaled_integer<elastic_integer<D, N>, power<E>>: arithmetic and comparisons with
+// different exponents; `_impl::scale<-K>` of the elastic representation (elastic_integer/scale.h)
+template<class Z>
+void print_es(Z const& z)
+{
+    fputs(tn<Z>().c_str(), stdout);
+    putchar('/');
+    using R = _impl::rep_of_t<_impl::rep_of_t<Z>>;
+    fputs(tn<R>().c_str(), stdout);
+    putchar(':');
+    prv(_impl::to_rep(_impl::to_rep(z)));
+}
+#define SHEAD(KIND, NAME) \
+    printf("C05 " KIND " " NAME " %d %s %d %d %s %d ", LD, tn<LN>().c_str(), LE, RD, tn<RN>().c_str(), RE); \
+    pri(l); \
+    putchar(' '); \
+    pri(r); \
+    fputs(" => ", stdout);
+
+template<int LD, class LN, int LE, int RD, class RN, int RE>
+void sbin(Rng& rng)
+{
+    using A = scaled_integer<elastic_integer<LD, LN>, power<LE>>;
+    using B = scaled_integer<elastic_integer<RD, RN>, power<RE>>;
+    using AR = _impl::rep_of_t<elastic_integer<LD, LN>>;
+    using BR = _impl::rep_of_t<elastic_integer<RD, RN>>;
+    auto lv = evals<LD, LN>(rng);
+    auto rv = evals<RD, RN>(rng);
+    for (I l : lv)
+        for (I r : rv) {
+            A a = _impl::from_rep<A>(_impl::from_rep<elastic_integer<LD, LN>>(AR(l)));
+            B b = _impl::from_rep<B>(_impl::from_rep<elastic_integer<RD, RN>>(BR(r)));
+            { SHEAD("sbin", "add") VH_RUN(a + b, print_es) }
+            { SHEAD("sbin", "sub") VH_RUN(a - b, print_es) }
+            { SHEAD("sbin", "mul") VH_RUN(a * b, print_es) }
+            { SHEAD("sbin", "div") VH_RUN(a / b, print_es) }
+            { SHEAD("scmp", "lt") VH_RUN(a < b, print_tv) }
+            { SHEAD("scmp", "le") VH_RUN(a <= b, print_tv) }
+            { SHEAD("scmp", "gt") VH_RUN(a > b, print_tv) }
+            { SHEAD("scmp", "ge") VH_RUN(a >= b, print_tv) }
+            { SHEAD("scmp", "eq") VH_RUN(a == b, print_tv) }
+            { SHEAD("scmp", "ne") VH_RUN(a != b, print_tv) }
+        }
+    for (I l : lv) {
+        A a = _impl::from_rep<A>(_impl::from_rep<elastic_integer<LD, LN>>(AR(l)));
+        printf("C05 sneg %d %s %d ", LD, tn<LN>().c_str(), LE);
+        pri(l);
+        fputs(" => ", stdout);
+        VH_RUN(-a, print_es)
+    }
+}
+
+template<int LD, class LN, int K>
+void scaledn(Rng& rng)
+{
+    using A = elastic_integer<LD, LN>;
+    using AR = _impl::rep_of_t<A>;
+    for (I l : evals<LD, LN>(rng)) {
+        A a = _impl::from_rep<A>(AR(l));
+        printf("C05 scaledn %d %s %d ", LD, tn<LN>().c_str(), K);
+        pri(l);
+        fputs(" => ", stdout);
+        VH_RUN((_impl::scale<-K, 2>(a)), print_el)
+    }
+}
+#endif
+
 #if defined(VH_CMP_ONLY)
 // comparisons between a built-in integer and an elastic_integer, integer on either side
 template<int LD, class LN, class B>
